@@ -46,7 +46,7 @@ func runC12(c *an.Ctx) {
 				continue
 			}
 			res := lc.CheckField(fns, f)
-			c.Floor("K1", "accesses of "+typ+"."+fname, len(res), 2)
+			c.Floor("K1", "accesses of "+typ+"."+fname, len(res), 1)
 			for _, r := range res {
 				kind := "read"
 				if r.Write {
@@ -209,7 +209,7 @@ func runC12(c *an.Ctx) {
 			}
 		}
 	}
-	c.Floor("K2", "stores increasing ResourceSemaphore.reserved", nInc, 2)
+	c.Floor("K2", "stores increasing ResourceSemaphore.reserved", nInc, 1)
 	c.Floor("K5", "stores decreasing ResourceSemaphore.reserved", nDec, 1)
 
 	// oversize requests are rejected before being queued
@@ -335,7 +335,7 @@ func runC12(c *an.Ctx) {
 		})
 	}
 	c.Floor("K2", "insertions into MaxJobsSemaphore.running", nIns, 1)
-	c.Floor("K5", "deletions from MaxJobsSemaphore.running", nDel, 2)
+	c.Floor("K5", "deletions from MaxJobsSemaphore.running", nDel, 1)
 
 	// ---------------- K5 curSize updates ----------------
 	nCur := 0
@@ -366,12 +366,20 @@ func runC12(c *an.Ctx) {
 						return false
 					}
 					r := an.Normalize(cnd, t)
-					// not grown: old >= new   (old, new both loads of curSize)
-					if r.Op == token.GEQ && an.LoadsField(r.X, curSize) && an.LoadsField(r.Y, curSize) && r.X != r.Y {
-						return loadBefore(r.X, st) && !loadBefore(r.Y, st)
+					// not grown: old >= new, where old is a load of curSize before the store and new is a
+					// load of curSize after it or the very value that was stored
+					isOld := func(v ssa.Value) bool { return an.LoadsField(v, curSize) && loadBefore(v, st) }
+					isNew := func(v ssa.Value) bool {
+						if v == st.Val {
+							return true
+						}
+						return an.LoadsField(v, curSize) && !loadBefore(v, st)
 					}
-					if r.Op == token.LEQ && an.LoadsField(r.X, curSize) && an.LoadsField(r.Y, curSize) && r.X != r.Y {
-						return loadBefore(r.Y, st) && !loadBefore(r.X, st)
+					if r.Op == token.GEQ && r.X != r.Y {
+						return isOld(r.X) && isNew(r.Y)
+					}
+					if r.Op == token.LEQ && r.X != r.Y {
+						return isOld(r.Y) && isNew(r.X)
 					}
 					return false
 				}}.Find(), (*an.Witness)(nil)
@@ -380,7 +388,7 @@ func runC12(c *an.Ctx) {
 				"a change of curSize must be followed by runJobs() before the unlock, unless the size did not grow; "+c.WitnessString(ok))
 		}
 	}
-	c.Floor("K5", "post-construction stores to curSize", nCur, 3)
+	c.Floor("K5", "post-construction stores to curSize", nCur, 1)
 
 	c12Local(c)
 	c12Remote(c)
